@@ -60,6 +60,10 @@ pub struct Sig {
     pub deps: Deps,
     pub bounds: Vec<usize>,
     pub bounds_in_where: usize,
+    /// `?Sized` among the deps bounds (by-reference generic / impl deps only)
+    pub deps_maybe_sized: bool,
+    /// `fn f<'d, D: .. + 'd>(deps: &'d D)`: a lifetime bound on the deps parameter (RefGeneric only)
+    pub deps_lifetime_bound: bool,
     pub n_lifetimes: usize,
     /// lifetime predicates `'l1: 'l0` (makes both early-bound)
     pub lt_pred: bool,
@@ -112,6 +116,7 @@ impl Sig {
             RTy::I32 => " -> i32".into(),
             RTy::Owned => " -> String".into(),
             RTy::FromDeps => match self.deps {
+                Deps::RefGeneric if self.deps_lifetime_bound => " -> &'d str".into(),
                 Deps::ConcreteRefNamed => " -> &'d str".into(),
                 _ => " -> &str".into(),
             },
@@ -134,11 +139,22 @@ impl Sig {
         if self.lt_pred && self.n_lifetimes >= 2 {
             w.push("'b: 'a".into());
         }
-        let dep_bounds: Vec<String> = self.bounds.iter().map(|b| format!("B{b}")).collect();
+        let mut dep_bounds: Vec<String> = self.bounds.iter().map(|b| format!("B{b}")).collect();
+        if self.deps_maybe_sized && self.deps == Deps::RefGeneric {
+            dep_bounds.insert(0, "?Sized".into());
+        }
+        if self.deps_lifetime_bound && self.deps == Deps::RefGeneric {
+            g.insert(0, "'d".into());
+            dep_bounds.push("'d".into());
+        }
         match self.deps {
             Deps::RefGeneric | Deps::ValGeneric => {
                 let k = self.bounds_in_where.min(dep_bounds.len());
-                let split = dep_bounds.len() - k;
+                let mut split = dep_bounds.len() - k;
+                if self.deps_maybe_sized && self.deps == Deps::RefGeneric {
+                    split = split.max(1); // a relaxed bound must be written where the parameter is declared
+                }
+                let k = dep_bounds.len() - split;
                 g.push(if split == 0 { "D".into() } else { format!("D: {}", dep_bounds[..split].join(" + ")) });
                 if k > 0 {
                     w.push(format!("D: {}", dep_bounds[split..].join(" + ")));
@@ -180,8 +196,10 @@ impl Sig {
         let b: Vec<String> = self.bounds.iter().map(|b| format!("B{b}")).collect();
         let ib = if b.is_empty() { "Sized".to_string() } else { b.join(" + ") };
         Some(match self.deps {
+            Deps::RefGeneric if self.deps_lifetime_bound => "deps: &'d D".into(),
             Deps::RefGeneric => "deps: &D".into(),
             Deps::ValGeneric => "deps: D".into(),
+            Deps::RefImpl if self.deps_maybe_sized => format!("deps: &(impl ?Sized + {ib})"),
             Deps::RefImpl => format!("deps: &(impl {ib})"),
             Deps::ValImpl => format!("deps: impl {ib}"),
             Deps::ConcreteRef => "deps: &Conf".into(),
@@ -210,6 +228,7 @@ impl Sig {
     /// receiver type of the trait method as seen by a caller
     fn recv_ty(&self, lt: &str) -> String {
         match self.deps {
+            Deps::RefGeneric if self.deps_lifetime_bound => "&'d A".into(),
             Deps::RefGeneric | Deps::RefImpl | Deps::NoDeps => format!("&{lt} A"),
             Deps::ValGeneric | Deps::ValImpl => "A".into(),
             Deps::ConcreteRef => format!("&{lt} Conf"),
@@ -258,6 +277,9 @@ impl Sig {
     /// fn-pointer type and are taken from the enclosing witness fn instead
     fn early_bound(&self) -> Vec<String> {
         let mut v = vec![];
+        if self.deps_lifetime_bound && self.deps == Deps::RefGeneric {
+            v.push("'d".to_string());
+        }
         if self.lt_pred && self.n_lifetimes >= 2 {
             v.push("'a".to_string());
             v.push("'b".to_string());
@@ -292,8 +314,9 @@ impl Sig {
     pub fn ptr_types(&self) -> (String, String, String) {
         let early = self.early_bound();
         let mut hr: Vec<String> = vec![];
-        let deps_lt = if self.deps == Deps::ConcreteRefNamed { "'d".to_string() } else { "'x".to_string() };
-        if self.deps_has_ref() && self.deps != Deps::ConcreteRefNamed {
+        let named_d = self.deps == Deps::ConcreteRefNamed || (self.deps == Deps::RefGeneric && self.deps_lifetime_bound);
+        let deps_lt = if named_d { "'d".to_string() } else { "'x".to_string() };
+        if self.deps_has_ref() && !named_d {
             hr.push("'x".into());
         }
         if self.deps == Deps::ConcreteRefNamed {
@@ -331,6 +354,7 @@ impl Sig {
         }
         via_ps.extend(params.iter().cloned());
         let via = format!("{}{quals}fn({}) -> {ret}", for_(&hr_via), via_ps.join(", "));
+        let early: Vec<String> = early;
         let wg = if early.is_empty() {
             String::new()
         } else if self.lt_pred {
@@ -346,10 +370,11 @@ impl Sig {
     /// witness fn calling the method (and the fn directly) with its own parameters as arguments
     pub fn call_witness(&self, fn_name: &str, trait_name: &str, with_method: bool) -> String {
         let mut g: Vec<String> = vec![];
-        if self.deps == Deps::ConcreteRefNamed {
+        let named_d = self.deps == Deps::ConcreteRefNamed || (self.deps == Deps::RefGeneric && self.deps_lifetime_bound);
+        if named_d {
             g.push("'d".into());
         }
-        if self.deps_has_ref() && self.deps != Deps::ConcreteRefNamed || self.deps == Deps::NoDeps {
+        if self.deps_has_ref() && !named_d || self.deps == Deps::NoDeps {
             g.push("'x".into());
         }
         for l in 0..self.n_lifetimes {
@@ -365,7 +390,7 @@ impl Sig {
                 g.push(elided(i));
             }
         }
-        let deps_lt = if self.deps == Deps::ConcreteRefNamed { "'d" } else { "'x" };
+        let deps_lt = if named_d { "'d" } else { "'x" };
         let mut ps = vec![format!("recv: {}", if self.deps == Deps::NoDeps { "&'x A".to_string() } else { self.recv_ty(deps_lt) })];
         for (i, p) in self.params.iter().enumerate() {
             ps.push(format!("p{i}: {}", self.pty_inst(p, i, &elided)));
@@ -413,6 +438,8 @@ pub fn gen_sig(t: &mut Tape, excl: &Excl) -> Sig {
         }
     }
     let bounds_in_where = t.choose(bounds.len() + 1);
+    let deps_maybe_sized = matches!(deps, Deps::RefGeneric | Deps::RefImpl) && !excl.relaxed_and_lifetime_deps_bounds && t.chance(1, 6);
+    let deps_lifetime_bound = deps == Deps::RefGeneric && !excl.relaxed_and_lifetime_deps_bounds && t.chance(1, 6);
     let n_lifetimes = t.weighted(&[4, 3, 2]);
     let lt_pred = n_lifetimes >= 2 && !excl.lifetime_predicates && t.chance(1, 3);
     let n = t.weighted(&[2, 4, 4, 2, 1]);
@@ -453,7 +480,7 @@ pub fn gen_sig(t: &mut Tape, excl: &Excl) -> Sig {
     let n_lt_inputs = n_elided
         + params.iter().filter(|p| matches!(p, PTy::RefNamed(_) | PTy::RefGenNamed(_) | PTy::SliceNamed(_) | PTy::MutVec)).count()
         + if deps_has_ref { 1 } else { 0 };
-    if deps_has_ref && (n_lt_inputs == 1 || deps == Deps::ConcreteRefNamed) {
+    if deps_has_ref && (n_lt_inputs == 1 || deps == Deps::ConcreteRefNamed || deps_lifetime_bound) {
         rets.push(RTy::FromDeps);
         rets.push(RTy::FromDeps);
     }
@@ -474,6 +501,8 @@ pub fn gen_sig(t: &mut Tape, excl: &Excl) -> Sig {
         deps,
         bounds,
         bounds_in_where,
+        deps_maybe_sized,
+        deps_lifetime_bound,
         n_lifetimes,
         lt_pred,
         has_gen,
@@ -497,6 +526,7 @@ pub struct Excl {
     pub lifetime_predicates: bool,
     pub by_value_concrete: bool,
     pub no_deps_elided_return: bool,
+    pub relaxed_and_lifetime_deps_bounds: bool,
 }
 
 pub struct Case {
@@ -588,6 +618,12 @@ pub fn gen_case(t: &mut Tape, excl: &Excl) -> Case {
     if sig.lt_pred {
         classes.push("lifetime_predicate");
     }
+    if sig.deps_maybe_sized {
+        classes.push("deps_bound_?Sized");
+    }
+    if sig.deps_lifetime_bound {
+        classes.push("deps_lifetime_bound");
+    }
     match sig.deps {
         Deps::ValGeneric | Deps::ValImpl | Deps::ConcreteVal => classes.push("by_value_deps"),
         Deps::NoDeps => classes.push("no_deps"),
@@ -641,9 +677,10 @@ pub fn run(ctx: &mut Ctx) {
         lifetime_predicates: open.iter().any(|f| f.key == "lifetime-predicates-lifted"),
         by_value_concrete: open.iter().any(|f| f.key == "by-value-concrete-deps"),
         no_deps_elided_return: open.iter().any(|f| f.key == "no-deps-elided-return"),
+        relaxed_and_lifetime_deps_bounds: open.iter().any(|f| f.key == "relaxed-or-lifetime-deps-bound"),
     };
     for f in &open {
-        if !["const-generic-duplicated", "lifetime-predicates-lifted", "by-value-concrete-deps", "no-deps-elided-return"].contains(&f.key.as_str()) {
+        if !["const-generic-duplicated", "lifetime-predicates-lifted", "by-value-concrete-deps", "no-deps-elided-return", "relaxed-or-lifetime-deps-bound", "deps-type-param-used-elsewhere"].contains(&f.key.as_str()) {
             crate::ev::inconclusive(&format!("known_findings.txt lists an open C03 finding with an unknown key: {}", f.key));
         }
     }
@@ -742,6 +779,8 @@ fn probe_known(ctx: &mut Ctx, open: &[crate::ev::Finding]) {
             "lifetime-predicates-lifted" => ("fn the_fn<'a, 'b>(deps: &impl Sized, a: &'a str, b: &'b str) -> &'a str where 'b: 'a { todo!() }", "TheTrait", "E0261"),
             "by-value-concrete-deps" => ("fn the_fn(deps: Conf) -> i32 { todo!() }", "TheTrait", "E0507"),
             "no-deps-elided-return" => ("fn the_fn(p0: &str) -> &str { todo!() }", "TheTrait, no_deps", "E0621"),
+            "deps-type-param-used-elsewhere" => ("fn the_fn<D: B0>(deps: &D, again: &D) { todo!() }", "TheTrait", "E0425"),
+            "relaxed-or-lifetime-deps-bound" => ("fn the_fn<D: ?Sized + B0>(deps: &D) { todo!() }", "TheTrait", ""),
             _ => continue,
         };
         let real = format!("{}#[::entrait::entrait({attr})]\n{item}\npub fn run() -> Vec<String> {{ vec![] }}\n", header());
@@ -750,7 +789,7 @@ fn probe_known(ctx: &mut Ctx, open: &[crate::ev::Finding]) {
         ctx.count_eval();
         match v.first() {
             Some(Some(Err(d))) => {
-                if d.iter().any(|x| x.code == code) || f.key == "no-deps-elided-return" {
+                if d.iter().any(|x| x.code == code) || f.key == "no-deps-elided-return" || code.is_empty() {
                     ctx.known(&format!("key={} {}", f.key, f.what));
                 } else {
                     ctx.violation(
